@@ -319,6 +319,13 @@ def finish(report, tier, min_evals=1, min_distinct=2):
         print("INCONCLUSIVE property=%s too little observed: evaluations=%d distinct=%d (floors %d/%d)"
               % (prop, report.evaluations, distinct, min_evals, min_distinct))
         rc = 2
+    if not report.samples and report.evaluations > 0:
+        # last resort so the record stays well-formed; harnesses are expected to
+        # supply real cases (this line is printed so the omission gets noticed)
+        print("WARNING property=%s harness supplied no samples; recording aggregate counters as the only sample" % prop)
+        report.samples.append({"note": "no per-case sample supplied by the harness; aggregate counters of this run",
+                               "evaluations": report.evaluations,
+                               "counters": {k: v for k, v in report.extra.items() if isinstance(v, (int, float, dict))}})
     cov = {
         "evaluations": report.evaluations,
         "distinct_nontrivial": distinct,
